@@ -519,6 +519,9 @@ class Spec:
         obs = {"phase": "init", "tmpdir": tmpdir}
 
         def on_end(kind, info):
+            if kind == "unsupported":
+                emit({"verdict": "harness-error", "message": "simulated environment lacks something the code asked for: "
+                      + str(info.get("exc"))})
             res = evaluate(plan, obs, k, kind, info)
             probes = dict(k.probes)
             if "torn-write" in k.faults:
